@@ -6,6 +6,7 @@ is always the real compiler on the unsplit program).
 
 Every choice is drawn from the random.Random passed in.
 """
+import random
 import re
 
 IDENT = re.compile(r"[A-Za-z_][A-Za-z0-9_]*")
@@ -622,6 +623,7 @@ class Split:
         self.import_style = {}    # (includer, includee) -> text used in the import
         self.renames = {}         # module -> {old: new}  (private items only)
         self.dup_imports = set()
+        self.extra_pub = set()    # constants marked `pub` although no other module needs them
         self.compute()
 
     def compute(self):
@@ -633,7 +635,7 @@ class Split:
                     needed.add(d)
         # pub = closure of cross-module needs under exported deps
         pub = set()
-        stack = list(needed)
+        stack = list(needed) + sorted(n for n in getattr(self, "extra_pub", ()) if n in P.by_name)
         while stack:
             x = stack.pop()
             if x in pub:
@@ -793,6 +795,13 @@ def random_split(program, rng, k=None, allow_parent=False, allow_empty=False):
     if empty is not None and rng.random() < 0.8:
         sp.extra_imports.setdefault(rng.choice([m for m in range(k) if m != empty]), []).append(empty)
         sp.compute()
+    # gratuitous `pub`: constants exported although nobody outside needs them
+    # (legal, must not change anything). Drawn from a stream of its own, so
+    # that everything else generated from a seed stays what it was.
+    own = random.Random("extra_pub:%r" % sorted(assign.items()))
+    if own.random() < 0.4:
+        sp.extra_pub = {it.name for it in program.items if it.kind == "const" and own.random() < 0.6}
+        sp.compute()
     sp.choose_styles(rng)
     return sp
 
@@ -884,7 +893,12 @@ def twin_module(prog, rng):
     structure given another layout. Lengths (usize constants) are kept, so the
     twin's tables have the same *type* as the originals."""
     out = []
-    longer = rng.random() < 0.4      # variant: other array lengths too
+    r = rng.random()
+    longer = r < 0.4      # variant: other array lengths too
+    # variant: the twin's constants are `pub` (nobody imports the twin, so they
+    # still concern no other module); decided from the same draw as `longer`,
+    # so that programs generated from a seed stay what they were
+    pub_consts = int(r * 1000) % 2 == 0
     bumped = set()
     for it in prog.items:
         if it.name in ("main", "abs"):
@@ -910,6 +924,8 @@ def twin_module(prog, rng):
             body = body.replace("{\n", "{\n\tzz: u8,\n", 1)
         elif it.kind == "fn":
             body = re.sub(r"%% %d" % MOD, "%% %d" % (MOD - 1), body)
+        if pub_consts and it.kind == "const" and body.startswith("const "):
+            body = "pub " + body
         out.append(body)
     # keep the twin's globals alive: a pub (externally visible, never called) function reads them
     terms = []
@@ -1054,6 +1070,7 @@ def split_to_json(sp, item_order=None):
             "extra_imports": {str(k): list(v) for k, v in sp.extra_imports.items()},
             "renames": {str(k): dict(v) for k, v in sp.renames.items()},
             "dup_imports": [list(x) for x in sorted(sp.dup_imports)],
+            "extra_pub": sorted(getattr(sp, "extra_pub", ())),
             "styles": {"%d,%d" % k: v for k, v in sp.import_style.items()},
             "item_order": item_order or {}}
 
@@ -1071,6 +1088,7 @@ def split_from_json(d):
     sp.import_style = {}
     sp.renames = {int(k): {a: b for a, b in v.items() if a in P.by_name} for k, v in d.get("renames", {}).items()}
     sp.dup_imports = set()
+    sp.extra_pub = {n for n in d.get("extra_pub", []) if n in P.by_name}
     sp.compute()
     for key, v in d.get("styles", {}).items():
         a, b = key.split(",")
